@@ -28,6 +28,7 @@ from .values import (
     to_integer,
     to_string,
     js_typeof,
+    _is_array_index,
 )
 from .errors import (
     JSError,
@@ -1112,13 +1113,9 @@ class VM:
             return obj.get(key_str)
 
         if isinstance(obj, JSTypedArray):
-            # Typed array index access
-            try:
-                idx = int(key_str)
-                if idx >= 0:
-                    return obj.get_index(idx)
-            except ValueError:
-                pass
+            # Typed array index access (canonical index strings only)
+            if _is_array_index(key_str):
+                return obj.get_index(int(key_str))
             if key_str == "length":
                 return obj.length
             if key_str == "BYTES_PER_ELEMENT":
@@ -1133,13 +1130,9 @@ class VM:
             return obj.get(key_str)
 
         if isinstance(obj, JSArray):
-            # Array index access
-            try:
-                idx = int(key_str)
-                if idx >= 0:
-                    return obj.get_index(idx)
-            except ValueError:
-                pass
+            # Array index access (canonical index strings only)
+            if _is_array_index(key_str):
+                return obj.get_index(int(key_str))
             if key_str == "length":
                 return obj.length
             # Built-in array methods
@@ -1233,13 +1226,9 @@ class VM:
             return UNDEFINED
 
         if isinstance(obj, str):
-            # String character access
-            try:
-                idx = int(key_str)
-                if 0 <= idx < len(obj):
-                    return obj[idx]
-            except ValueError:
-                pass
+            # String character access (canonical index strings only)
+            if _is_array_index(key_str) and int(key_str) < len(obj):
+                return obj[int(key_str)]
             if key_str == "length":
                 return len(obj)
             # String methods
@@ -2471,13 +2460,9 @@ class VM:
         key_str = to_string(key) if not isinstance(key, str) else key
 
         if isinstance(obj, JSTypedArray):
-            try:
-                idx = int(key_str)
-                if idx >= 0:
-                    obj.set_index(idx, value)
-                    return
-            except ValueError:
-                pass
+            if _is_array_index(key_str):
+                obj.set_index(int(key_str), value)
+                return
             obj.set(key_str, value)
             return
 
